@@ -102,7 +102,7 @@ class MeasurementOutcomeDistribution:
 
         for key in copy.deepcopy(list(self.distribution_dict.keys())):
             new_key = "".join(str(key[i]) for i in active_qubits)
-            new_counts[new_key] = self.distribution_dict.pop(key) + new_counts.get(
+            new_counts[new_key] = self.distribution_dict[key] + new_counts.get(
                 new_key, 0
             )
         normalize = is_normalized(self.distribution_dict)
